@@ -71,8 +71,10 @@ Space == {"sp", "tb", "nl", "cr"}
 XSpace == Space \cup {"v"}
 Word  == {"w", "u", "TX", "DC", "DF", "BK"}
 Quote == {"dq", "sq"}
-TagAtoms == {"DEF", "DE2", "BLK"}
-CtlOpen  == {"IFT", "IFF", "FOR"}
+\* INC: a whole self-closed tag with Python text in an attribute, <%include file="${o}"/>;  IFO: the control-line body `if o:`
+\* (o = the same filler as the symbol o: directives whose Python text is data the compiler may reject for any reason)
+TagAtoms == {"DEF", "DE2", "BLK", "INC"}
+CtlOpen  == {"IFT", "IFF", "FOR", "IFO"}
 CtlClose == {"EIF", "EFR"}
 DocOpen   == <<"lt", "pc", "DC", "gt">>
 DocClose  == <<"lt", "sl", "pc", "DC", "gt">>
@@ -301,7 +303,7 @@ MatchControlLine ==
              /\ ctl' = Append(ctl, [kw |-> kw, p |-> pos, l |-> line]) /\ UNCHANGED tags
            ELSE IF clean /\ kw \in CtlClose THEN
              IF ctl = <<>> THEN Fail("control-no-start", pos, line, TRUE, {})
-             ELSE IF (kw = "EIF") # (ctl[Len(ctl)].kw \in {"IFT", "IFF"}) THEN Fail("control-mismatch", pos, line, TRUE, {})
+             ELSE IF (kw = "EIF") # (ctl[Len(ctl)].kw \in {"IFT", "IFF", "IFO"}) THEN Fail("control-mismatch", pos, line, TRUE, {})
              ELSE /\ Advance("Control", AfterTerm(ce), <<Node("ctl", pos, line, <<kw>>)>>, <<>>, Pop(ostk), {})
                   /\ ctl' = SubSeq(ctl, 1, Len(ctl) - 1) /\ UNCHANGED tags
            ELSE Fail("control-line", pos, line, TRUE, IF LoneCr(b + 1, ce - 1) THEN {"lone-cr-line"} ELSE {})
@@ -332,7 +334,10 @@ MatchDocComment ==
 
 MatchTagStart ==
   /\ ~fin /\ Rule(pos) = "TagStart"
-  /\ IF txt[pos] \in TagAtoms THEN
+  /\ IF txt[pos] = "INC" THEN
+        Advance("TagStart", pos + 1, <<Node("tag", pos, line, <<"IN">>), Node("endtag", pos, line, <<"IN">>)>>, <<>>, ostk, {"frames"})
+        /\ UNCHANGED <<tags, ctl>>
+     ELSE IF txt[pos] \in TagAtoms THEN
         LET kw == IF txt[pos] = "BLK" THEN "BK" ELSE "DF" IN
         /\ Advance("TagStart", pos + 1, <<Node("tag", pos, line, <<kw>>)>>, <<>>, Push(ostk, kw), {"frames"})
         /\ tags' = Append(tags, <<kw>>) /\ UNCHANGED ctl
